@@ -157,7 +157,93 @@ func c13BackgroundJobs(r *vlib.Run) {
 	}
 }
 
+// c13Serverless: the limits also hold for a client that works without a server
+// (the same handlers run inside the client process, the limits come from its
+// configuration). dcat over six large files with a consumer that does not read:
+// at most MaxConcurrentCats files open in the client process, and exactly that
+// many once things have settled; dtail over five files: MaxConcurrentTails.
+func c13Serverless(r *vlib.Run) {
+	dir, _ := filepath.EvalSymlinks(r.Dir("c13serverless"))
+	cfg := filepath.Join(dir, "limits.json")
+	os.WriteFile(cfg, []byte(`{"Server":{"MaxConcurrentCats":2,"MaxConcurrentTails":3}}`), 0644)
+	var big bytes.Buffer
+	for k := 0; k < 40000; k++ {
+		fmt.Fprintf(&big, "%07d serverless limit line the quick brown fox jumps over the lazy dog 0123456789\n", k)
+	}
+	for _, mode := range []string{"cat", "tail"} {
+		n, limit, bin := 6, 2, "dcat"
+		if mode == "tail" {
+			n, limit, bin = 5, 3, "dtail"
+		}
+		sub := filepath.Join(dir, mode)
+		os.MkdirAll(sub, 0755)
+		for k := 0; k < n; k++ {
+			os.WriteFile(filepath.Join(sub, fmt.Sprintf("%s-%d.log", mode, k)), big.Bytes(), 0644)
+		}
+		home := serverlessHome(r)
+		args := []string{"--cfg", cfg, "--logger", "stdout", "--logLevel", "error", "--plain", "--files", filepath.Join(sub, "*.log")}
+		if mode == "tail" {
+			args = append(args, "--shutdownAfter", "5")
+		}
+		maxOpen, atRest, samples := 0, -1, 0
+		var worst []string
+		stop := make(chan struct{})
+		var wg sync.WaitGroup
+		onPid := func(pid int) {
+			wg.Add(1)
+			go func() {
+				defer wg.Done()
+				stable, last := 0, -1
+				for {
+					select {
+					case <-stop:
+						return
+					default:
+					}
+					open := vlib.OpenFilesUnder(pid, sub)
+					samples++
+					if len(open) > maxOpen {
+						maxOpen, worst = len(open), open
+					}
+					if len(open) == last {
+						stable++
+						if stable == 40 { // unchanged for 200 ms
+							atRest = len(open)
+						}
+					} else {
+						stable, last = 0, len(open)
+					}
+					time.Sleep(5 * time.Millisecond)
+				}
+			}()
+		}
+		res, _ := runPacedPid(vlib.Cmd{Path: r.Bin(bin), Args: args, Env: []string{"HOME=" + home}, Dir: home, Watchdog: 120 * time.Second},
+			pacing{Kind: "stall", StallAt: 0, StallS: 2.5}, 4096, onPid)
+		close(stop)
+		wg.Wait()
+		os.RemoveAll(sub)
+		r.Eval("serverless|" + mode)
+		r.Count("serverless_limit_runs", 1)
+		r.Count("serverless_limit_samples", samples)
+		if res.TimedOut {
+			r.Inconclusive("serverless-client-watchdog")
+			continue
+		}
+		detail := map[string]interface{}{"mode": mode, "files": n, "limit": limit, "open_at_once_max": maxOpen, "open_when_settled": atRest, "open_files": worst}
+		switch {
+		case maxOpen > limit:
+			r.Violation("more-files-read-than-the-limit", detail)
+		case atRest >= 0 && atRest != limit && mode == "cat":
+			// (a follow may be over before things settle; cat readers are held by the stalled consumer)
+			r.Violation("reads-in-progress-differ-from-min(limit,live)", detail)
+		case mode == "tail" && maxOpen < limit:
+			r.Violation("reads-in-progress-differ-from-min(limit,live)", detail)
+		}
+	}
+}
+
 func c13(r *vlib.Run) int {
+	c13Serverless(r)
 	c13BackgroundJobs(r)
 	min := c13Body(r)
 	if r.Tier == "thorough" || os.Getenv("VERIF_FORCE_RACE") != "" {
